@@ -108,12 +108,24 @@ BUILDERS = [
     ('tls-in-tcp', 54 + 5, lambda e, raw: ('let f = ipv4::tcp::flow(1.2.3.4:5, 6.7.8.9:443);', 'f.client_message(send_ack: false, tls::message(%s));' % e)),
     ('len-prefixed', 14 + 2, lambda e, raw: ('', 'eth::frame("|000000000001|", "|000000000002|", std::len_be16(%s));' % e)),
 ]
-HEAD = 'import ipv4;\nimport eth;\nimport text;\nimport std;\nimport tls;\nimport vxlan;\nimport gre;\nimport io;\n'
+HEAD = 'import ipv4;\nimport eth;\nimport text;\nimport std;\nimport tls;\nimport vxlan;\nimport gre;\nimport io;\nimport dns;\nimport dhcp;\nimport netbios;\nimport erspan1;\nimport erspan2;\nimport time;\n'
 
 
-def one(c, r, name, hdr, mk, b, i):
+def one(c, r, name, hdr, mk, b, i, typed=None):
     lets = []
     e = spell(r, b, lets)
+    if typed:
+        # typed library values used as bytes: every integer constant contributes its big-endian bytes at its own width
+        # (1, 2, 4 or 8), a bytes constant its bytes; placed before, between and after spelled chunks
+        parts = [e]
+        for path, raw in typed:
+            parts.append(path); b = b + raw
+            if r.chance(1, 2):
+                x = pick_bytes(r, 12); parts.append(spell(r, x, lets)); b = b + x
+        if r.chance(1, 2):
+            nm = 'l%d' % len(lets); lets.append('let %s = %s;' % (nm, parts[1])); parts[1] = nm
+        e = ', '.join(parts) if r.chance(1, 2) else 'text::concat(%s)' % ', '.join(parts)
+        c.count('typed-constants-as-bytes', len(typed))
     decl, stmt = mk(e, False)
     src = (HEAD + '\n'.join(lets) + '\n' + decl + '\n' + stmt + '\n').encode('utf-8')
     impl, model = progdiff.run_both(c, src)
@@ -138,8 +150,17 @@ def one(c, r, name, hdr, mk, b, i):
     c.case(key, dict(builder=name, expr=e[:200], n=len(b)) if key and i % 25 == 0 else None)
 
 
+TYPED = []
+
+
 def campaign(c):
     c.rule = RULE
+    from ..gen import Lib
+    W = {'U8': 1, 'U16': 2, 'U32': 4, 'U64': 8}
+    for sdef in Lib().consts:
+        d = sdef['def']
+        if d['type'] in W: TYPED.append((sdef['path'], int(d['value']).to_bytes(W[d['type']], 'big')))
+        elif d['type'] == 'Str': TYPED.append((sdef['path'], core.unhex(d['value'])))
     n = 300 if c.quick else 8000
     for i in range(n):
         r = c.rng.fork('c05-%d' % i)
@@ -147,7 +168,10 @@ def campaign(c):
         b = pick_bytes(r, 3000 if c.quick else 20000)
         if name in ('tcp-msg',) and i % 31 == 0 and not c.quick: b = r.bytes(65535 - 40)
         if name in ('frag-tail', 'frag-fragment', 'frag-datagram') and i % 3 == 0: b = r.bytes(r.choice([8191, 8192, 9000, 16384, 20000]))
-        one(c, r, name, hdr, mk, b, i)
+        typed = None
+        if i % 4 == 2 and name != 'len-prefixed':
+            typed = [r.choice(TYPED) for _ in range(1 + r.below(3))]
+        one(c, r, name, hdr, mk, b, i, typed)
     # scale: every builder with payloads around 2^13 and close to the largest datagram; layer-2 builders beyond 2^16
     for j, (name, hdr, mk) in enumerate(BUILDERS):
         for size in ([8192, 65000] if c.quick else [8191, 8192, 8193, 16385, 32768, 65000]) + ([65536, 70001] if name == 'eth-frame' else []):
